@@ -61,6 +61,14 @@ func runReaders(w *out.W, tier, outDir string) {
 			[]string{"CREATE TABLE t (a int);", "CREATE TABLE u (a text DEFAULT ';');"}, "golang-migrate comments"},
 		{flyway, "CREATE TABLE t (a int);\n\n\nCREATE TABLE u (a int)\n;\n", []string{"CREATE TABLE t (a int);", "CREATE TABLE u (a int)\n;"}, "flyway blank lines"},
 	}
+	// bufio.Scanner's 64 KiB token limit: a line of 65536 bytes ends the loop silently (known finding
+	// sqltool-long-line); the model's [lines] reproduces it
+	long := "INSERT INTO t VALUES ('" + strings.Repeat("x", 65536-len("INSERT INTO t VALUES ('');")) + "');"
+	cases = append(cases,
+		readCase{goose, "-- +goose Up\nSELECT 1;\n" + long + "\nSELECT 2;\n-- +goose Down\nSELECT 3;\n", nil, "goose 65536-byte line"},
+		readCase{dbmate, "-- migrate:up\nSELECT 1;\n" + long + "\nSELECT 2;\n-- migrate:down\nSELECT 3;\n", nil, "dbmate 65536-byte line"},
+		readCase{goose, "-- +goose Up\nSELECT 1;\n" + long + "x\nSELECT 2;\n", nil, "goose 65537-byte line"},
+	)
 	// perturbations of real formatter output
 	r := rng.FromEnv(0xC0704)
 	n := 400
